@@ -20,7 +20,8 @@ func init() {
 			"C17.ro: alias analysis from every parser entry point: no element store, copy or append targets memory that may alias the input (conversions of the type parameter, sub-slices, FindSubmatch results); stdlib callees receiving an alias must be in the read-only summary table; a slice sharing the input's bytes is not stored where it outlives the call; aliases are followed through local cells (variables captured by closures) and into the closures themselves. C17.errinput: the methods of the typed parse errors, which keep the input in their Input field, do not write through an alias of it either (Error() formats a caller's []byte). " +
 			"C17.alias: result types contain no reference into the input (Date, Number, Size, ID have no pointer/slice/string fields; Ver's strings are produced by copying string(...) conversions); no unsafe in the value packages. " +
 			"C17.generic: one generic body per parser, in which no type switch/assertion/reflect inspects a T-typed value, no type assertion or errors.As target is a type built from T (*ParseError[T]: it matches for one instantiation only), and every fmt verb applied to a T-typed value prints string and []byte identically. C17.generic also reports every input-typed value that is converted to an interface and leaves the generic body other than as a %q/%s/%x operand of a constant format (fmt.Sprint, non-constant formats, helpers taking any)." +
-			" Added after the second rule audit: the 'no unsafe' clause of C17.alias covers every package of the module in the call-graph closure of the parser entry points, not a fixed list; a value whose type is instantiated with the input's type parameter must not be printed with %T or %#v/%+v; entry points of other shapes added later (exported functions and methods taking a text and returning an error) join the entry set.",
+			" Added after the second rule audit: the 'no unsafe' clause of C17.alias covers every package of the module in the call-graph closure of the parser entry points, not a fixed list; a value whose type is instantiated with the input's type parameter must not be printed with %T or %#v/%+v; entry points of other shapes added later (exported functions and methods taking a text and returning an error) join the entry set." +
+			" C17.ro 'carrier': an object built around the input (the typed parse error, a struct holding it, an fmt.Errorf wrapping it) is not stored into package-level state; a conversion to string copies. C17.generic 'arms': a decoding method that takes both a string and a []byte out of an interface parameter hands either to the same functions, cut and read the same way.",
 		NotDecided:  []string{"error *types* differ by instantiation by design (ParseError[string] vs ParseError[[]byte]); only values and messages are claimed"},
 		Technique:   "store-then-error reachability, input alias/effect analysis and generic-body type rules over go/ssa",
 		Assumptions: []string{"stdlib read-only summaries (regexp.Find*/Match*, bytes.NewReader, json.NewDecoder, strconv.*) do not write their input", "FindSubmatch results alias the subject"},
